@@ -2219,6 +2219,19 @@ def _contains(token: TokenT, left: object, right: object) -> bool:
         if hasattr(right, "__liquid__"):
             right = right.__liquid__()
 
+        if isinstance(left, range):
+            # Membership of a range is only constant time for an int. Anything else
+            # is compared with every item of the range.
+            if isinstance(right, (float, Decimal)):
+                try:
+                    whole = int(right)
+                except (ValueError, OverflowError):
+                    return False
+                if whole != right:
+                    return False
+                right = whole
+            return isinstance(right, int) and right in left
+
         try:
             return right in left
         except TypeError as err:
